@@ -2,6 +2,7 @@ package rules
 
 import (
 	"go/token"
+	"sort"
 
 	"golang.org/x/tools/go/ssa"
 
@@ -182,6 +183,71 @@ func (c *Ctx) cod13() {
 		}
 		a.done(1, "every accepting path excludes the empty string and passed stringCheck")
 	}
+	c.cod13Valid(sc, tc)
+}
+
+// cod13Valid: every Config that valid() accepts has its four variable-length
+// CONNECT fields bounded on that very path — an early "nothing to check"
+// return ahead of one of the tests lets a Will topic or message beyond 65,535
+// bytes (or with an illegal string) into newCONNREQ, whose 16-bit length
+// prefix then describes other bytes than the ones that follow.
+func (c *Ctx) cod13Valid(sc, tc *ssa.Function) {
+	vf := c.Fn("COD-13", "(*Config).valid")
+	if vf == nil {
+		return
+	}
+	sm := c.constInt("stringMax")
+	a := c.acc("COD-13", vf, "nil⇒UserName,Password,Will.Topic,Will.Message-bounded-on-the-path")
+	want := []string{"Config.UserName", "Config.Password", "Config.Will.Topic", "Config.Will.Message"}
+	for _, p := range c.Paths("COD-13", vf) {
+		if p.Start != vf.Blocks[0] || p.End != pathx.KReturn {
+			continue
+		}
+		last := len(p.Events) - 1
+		if retErr(p, last) == triNonNil {
+			continue
+		}
+		got := map[string]bool{}
+		for _, m := range assumed(p, 0, -1) {
+			for _, k := range []cmp{m, m.swapped()} {
+				if x, isLen := builtinCall(k.X, "len"); isLen {
+					if (k.Op == token.LEQ && isK(k.Y, sm)) || (k.Op == token.LSS && isK(k.Y, sm+1)) {
+						got[roleKey(x)] = true
+					}
+				}
+			}
+		}
+		for i := range p.Events {
+			e := &p.Events[i]
+			if e.Kind != pathx.KCall || (e.Callee != sc && e.Callee != tc) || e.Callee == nil || len(e.Args) == 0 {
+				continue
+			}
+			if n, k := nilResult(p, i, -1); n && k {
+				got[roleKey(e.Args[0])] = true
+			}
+		}
+		var miss []string
+		for _, w := range want {
+			if !got[w] {
+				miss = append(miss, w)
+			}
+		}
+		if len(miss) == 0 {
+			a.pass()
+		} else {
+			a.fail(p, last, "valid() accepts a Config on a path that has not bounded %v (bounded: %v): newCONNREQ emits these behind a 16-bit length prefix", miss, keysOf(got))
+		}
+	}
+	a.done(2, "every accepting path passed stringCheck/topicCheck or the stringMax test for each of the four fields")
+}
+
+func keysOf(m map[string]bool) []string {
+	var out []string
+	for k := range m {
+		out = append(out, k)
+	}
+	sort.Strings(out)
+	return out
 }
 
 // searchesNUL: the needle argument is the zero byte/rune or the string "\x00".
